@@ -4025,8 +4025,10 @@ def add_measures(part):
 
     assert len(ts_start_times) == len(ts_end_times)
 
-    beat_map = part.beat_map
-    inv_beat_map = part.inv_beat_map
+    # bars are laid out in notated beats (the numerators in
+    # beats_per_measure), also when the part counts in musical beats
+    beat_map = part._time_interpolator()
+    inv_beat_map = part._time_interpolator(inv=True)
     mcounter = 1
     pos = ts_start_times[0]
 
